@@ -1408,7 +1408,7 @@ func (s *session) fire() bool {
 		}
 		s.srvAlive = false
 		vh.Settle(s.activity, 2, 10*time.Millisecond, 2*time.Second)
-		if s.rng.Intn(2) == 0 {
+		if x := s.rng.Intn(2); s.cell.Delay == "c2s" || (s.cell.Delay != "s2c" && x == 0) {
 			s.res.Params["then"] = "client closes"
 			s.cl.Close()
 			s.cliAlive = false
@@ -1422,7 +1422,8 @@ func (s *session) fire() bool {
 		s.cliAlive = false
 		vh.Settle(s.activity, 2, 10*time.Millisecond, 2*time.Second)
 		s.srvObservable, s.srvAlive = false, false
-		if s.rng.Intn(2) == 0 {
+		// both variants in every run: reset in the delay=c2s cell, clean close in the delay=s2c cell
+		if x := s.rng.Intn(2); s.cell.Delay == "c2s" || (s.cell.Delay != "s2c" && x == 0) {
 			s.res.Params["then"] = "server resets"
 			s.raw.SetLinger(0)
 			s.raw.Close()
